@@ -945,6 +945,12 @@ func (e *executor) execTop(cmd string, w []string) error {
 		e.open(pos, nil)
 		return nil
 	case "aaa":
+		// the one thing the tool models inside an aaa-server is the reference `ldap-attribute-map M` of a host line: entering
+		// the mode of an EXISTING host line is no change; defining or removing servers / hosts is refused
+		if !no && contains(pw, "host") && d.findHead(pos) != nil {
+			e.open(pos, nil)
+			return nil
+		}
 		return fmt.Errorf("aaa-server definitions must not be changed: %s", cmd)
 	}
 	return fmt.Errorf("command outside the modelled fragment: %s", cmd)
